@@ -381,6 +381,13 @@ class Position(object):
         if transaction.quantity == 0:
             return
 
+        # Update the current trade information first: a transaction
+        # that is refused (earlier than the current time of the
+        # position, or without a positive price) must not have
+        # booked any of its quantities
+        self.update_current_price(transaction.price, transaction.dt)
+        self.current_dt = transaction.dt
+
         # Depending upon the direction of the transaction
         # ensure the correct calculation is called
         if transaction.quantity > 0:
@@ -395,7 +402,3 @@ class Position(object):
                 transaction.price,
                 transaction.commission
             )
-
-        # Update the current trade information
-        self.update_current_price(transaction.price, transaction.dt)
-        self.current_dt = transaction.dt
